@@ -1,9 +1,10 @@
 #!/bin/bash
 # Build the framework from files on disk only (offline).
 set -e
-cd /verif
+cd "$(dirname "$(readlink -f "$0")")"
+V="$(pwd)"
 export CARGO_NET_OFFLINE=true
 python3 translate/t1_addmod.py /repo/src/lib.rs lean/CircBuf/CircBuf/Generated/AddMod.lean
 (cd lean/CircBuf && lake build)
-(cd harness && CARGO_TARGET_DIR=/verif/.work/target cargo build --offline --quiet)
+(cd harness && CARGO_TARGET_DIR="$V/.work/target" cargo build --offline --quiet)
 echo "setup ok"
